@@ -104,6 +104,11 @@ def sampler_selection(repo, chk, prefix):
         objs = {_counter_of(fn, u['target']) for u in res.updates}
         none_assumed = [v for t, v in res.assumed if cparam and term_of(fn, t, inline=False) in (expected_term(m, f'{cparam} is None'), expected_term(m, f'{cparam} == None'))]
         not_none_assumed = [v for t, v in res.assumed if cparam and term_of(fn, t, inline=False) in (expected_term(m, f'{cparam} is not None'), expected_term(m, f'{cparam} != None'))]
+        truthy_assumed = [v for t, v in res.assumed if cparam and term_of(fn, t, inline=False) == ('name', cparam)] + [not v for t, v in res.assumed if cparam and term_of(fn, t, inline=False) == ('not', ('name', cparam))]
+        if truthy_assumed and not none_assumed and not not_none_assumed:
+            if not truthy_assumed[0] and {_counter_of(fn, u['target']) for u in res.updates} & {'global'}:
+                chk.bad('C07.1c', 'R6', fn.site(), f'`{cparam} or GLOBAL_PRIOR_COMB_COUNTS`', f'the default counter is chosen by the truthiness of `{cparam}`: an explicitly passed counter that is still empty (first batch) is replaced by the ranking counter, so the construction candidates are counted in the exported ranking counter')
+            none_assumed = [not truthy_assumed[0]]
         default_path = (none_assumed and none_assumed[0]) or (not_none_assumed and not not_none_assumed[0])
         explicit_path = (none_assumed and not none_assumed[0]) or (not_none_assumed and not_none_assumed[0])
         want_obj = 'global' if (default_path or cparam is None) else ('param' if explicit_path else None)
